@@ -15,6 +15,9 @@
 //   - proto record: name, version, locations, every PURL field + PURL string, layer details verbatim
 //     also in results with two packages and two findings that target packages (16 layer relations);
 //     (layer details range over {nil, full, empty diff ID, empty command, index 0, base image yes/no, all-zero})
+//   - purity: no converter (purl string, ecosystem, proto, SPDX 2.3, CDX, package index) changes the package
+//     or what a fresh ToPURL() returns; every converter's output is the same after any sequence of the
+//     others (all permutations of {proto, spdx, cdx}) as on a fresh deep copy
 //   - CDX component: name, version, PURL string, locations (evidence occurrences) verbatim
 //   - SPDX package (exists when the PURL has a name and a version): PURL locator verbatim,
 //     name/version verbatim (see DC2), first two locations verbatim inside the source info
@@ -182,6 +185,11 @@ func judgeOne(it *harvest.Item) (vs []viol, pu *purl.PackageURL, purlPanicked bo
 				add("purl-print-parse-not-idempotent:"+strings.ToLower(pu.Type), "%q -> %q -> %q", s1, s2, s3)
 			}
 		}
+	}
+
+	// conversions are pure: they neither change the package nor depend on what ran before
+	if !ecoPanicked {
+		judgePure(p, add)
 	}
 
 	// conversions run on a copy that carries layer details
@@ -583,9 +591,11 @@ func doReplay(file string) {
 		p.Extractor = ex.E
 		it := &harvest.Item{Ex: *ex, Fixture: rec.Replay.Fixture, Env: rec.Replay.Env, Required: req, Index: k, Pkg: p}
 		if rec.Replay.Synth != "" {
-			for _, s := range append(harvest.Substitutions(), harvest.PairSubstitutions()...) {
+			for _, s := range append(append(harvest.Substitutions(), harvest.PairSubstitutions()...), harvest.PurlFieldSubstitutions()...) {
 				if s.Label == rec.Replay.Synth {
-					it = harvest.Apply(it, s)
+					if x := harvest.Apply(it, s); x != nil {
+						it = x
+					}
 				}
 			}
 		}
@@ -650,7 +660,7 @@ func main() {
 	// (name class x version class) pair (64 more).
 	perShape := 1 << 30
 	shapeSeen := map[string]int{}
-	subs := harvest.Substitutions()
+	subs := append(harvest.Substitutions(), harvest.PurlFieldSubstitutions()...)
 	if r.Thorough() {
 		subs = append(subs, harvest.PairSubstitutions()...)
 	}
@@ -690,7 +700,12 @@ func main() {
 		for _, s := range subs {
 			var g []*harvest.Item
 			for _, it := range chosen {
-				g = append(g, harvest.Apply(it, s))
+				if x := harvest.Apply(it, s); x != nil {
+					g = append(g, x)
+				}
+			}
+			if len(g) == 0 {
+				continue
 			}
 			synthN += len(g)
 			units = append(units, unit{g})
